@@ -27,6 +27,21 @@ NUMSTR = ["12", "-3", "2.5", "0.25", "-0.75", "0", "7", "100", "-100.25", "10.75
 WORDS = ["true", "false", "null", "abc", "", "a\0b", "k\"\\/", "z", "\xe9t\xe9", "a b", "tru", "What?"]
 
 
+# wide instances (char16_t / char32_t): extra keys and string units beyond 255; set while the
+# cases for that width are generated
+_WIDE = 0
+WIDE_KEYS = {16: [[0x20AC], [0xD83D, 0xDE00], [0x100, 0], [0xFFFF], [0x3B1, 0x3B2], [0x61, 0x300]],
+             32: [[0x1F600], [0x10FFFF], [0x20AC, 0x1F4A9], [0x110000], [0xFFFFFFFF], [0x61, 0x1F600, 0]]}
+WIDE_UNITS = {16: [0x20AC, 0xD83D, 0xDE00, 0xFFFF, 0x100, 0x22, 0x5C, 0x30, 0x661], 32: [0x1F600, 0x10FFFF, 0x110000, 0xFFFFFFFF, 0x20AC, 0x22, 0x39, 0x1D7CF]}
+WIDTH_CHAR = {0: "char", 16: "char16_t", 32: "char32_t"}
+
+
+def pick_key(rng):
+    if _WIDE and rng.random() < 0.4:
+        return rng.choice(WIDE_KEYS[_WIDE])
+    return rng.choice(KEYS)  # narrow
+
+
 def enc_str(units):
     return ",".join([str(len(units))] + [str(u) for u in units])
 
@@ -66,6 +81,8 @@ def rnd_scalar(rng, allow_real=True, simple_str=False):
     if simple_str:
         s = rng.choice(["x", "ab", "1", "2", "k1", "true", "null", "Zz9"])
         return "6," + enc_str(s_units(s))
+    if _WIDE and rng.random() < 0.3:
+        return "6," + enc_str([rng.choice(WIDE_UNITS[_WIDE] + [97, 49]) for _ in range(rng.randrange(0, 5))])
     r2 = rng.random()
     if r2 < 0.4:
         s = rng.choice(NUMSTR)
@@ -126,7 +143,7 @@ def gen_history(rng, maxlen):
         if r < 0.07:
             ops.append("1,%s,%s,%d" % (enc_target(t), rnd_scalar(rng), v))
         elif r < 0.25:
-            k = rng.choice(KEYS)
+            k = pick_key(rng)
             p = rnd_scalar(rng) if rng.random() < 0.85 else "7"
             ops.append("2,%s,%s,%s,%d" % (enc_target(t), enc_str(k), p, v))
             sh.note(t, ("K", k))
@@ -144,11 +161,11 @@ def gen_history(rng, maxlen):
         elif r < 0.59:
             ops.append("6,%s,%s,%d" % (enc_target(t), enc_target(t2), rng.randrange(2)))
         elif r < 0.63:
-            k = rng.choice(KEYS)
+            k = pick_key(rng)
             ops.append("7,%s,%s,%s" % (enc_target(t), enc_str(k), enc_target(t2)))
             sh.note(t, ("K", k))
         elif r < 0.71:
-            ops.append("8,%s,%s,%d" % (enc_target(t), enc_str(rng.choice(KEYS)), v))
+            ops.append("8,%s,%s,%d" % (enc_target(t), enc_str(pick_key(rng)), v))
         elif r < 0.76:
             ops.append("9,%s,%d" % (enc_target(t), rng.choice([0, 1, 2, 3])))
         elif r < 0.78:
@@ -161,7 +178,7 @@ def gen_history(rng, maxlen):
             ops.append("12,%s,%s,%d" % (enc_target(t), enc_target(t2), rng.randrange(2)))
         elif r < 0.93:
             if rng.random() < 0.25:
-                t2 = t if rng.random() < 0.4 else (t[0], t[1] + [("K", rng.choice(KEYS))])
+                t2 = t if rng.random() < 0.4 else (t[0], t[1] + [("K", pick_key(rng))])
             ops.append("13,%s,%s,%d" % (enc_target(t), enc_target(t2), rng.randrange(2)))
         elif r < 0.945:
             ops.append("14,%s,%d" % (enc_target(t), rng.choice([0, 1, 2, 3, 9])))
@@ -170,6 +187,14 @@ def gen_history(rng, maxlen):
         elif r < 0.97:
             nn = rng.choice(["3,%d" % rng.randrange(100), "4,-%d" % rng.randrange(1, 100), "5,%d" % rng.randrange(-50, 50)])
             ops.append("16,%s,%s,%s" % (enc_target(t), nn, rnd_scalar(rng)))
+        elif r < 0.98:
+            # t = ValueType::k / Value tmp{k[, size]}; every kind except ValuePtr
+            ops.append("20,%s,%d,%d" % (enc_target(t), rng.choice([0, 2, 3, 4, 5, 6, 7, 8, 9, 10]), rng.randrange(30)))
+        elif r < 0.99:
+            ops.append("21,%s,%s,%d" % (enc_target(t), enc_target(t2), rng.randrange(8)))
+        elif r < 0.995:
+            ops.append("22,%s,%s,%d" % (enc_target(t), enc_target(t2), rng.randrange(8)))
+            sh.note(t, ("I", rng.randrange(3)))
         else:
             ops.append("17,%s" % enc_target(t))
         if rng.random() < 0.12:
@@ -177,8 +202,10 @@ def gen_history(rng, maxlen):
     return ops[:maxlen]
 
 
-def gen_cases(rng, tier, boost=1):
-    n = (5000 if tier == "quick" else 60000) * boost
+def gen_cases(rng, tier, boost=1, wide=0, frac=1.0):
+    global _WIDE
+    _WIDE = wide
+    n = int((5000 if tier == "quick" else 60000) * boost * frac)
     cases = []
     dist = {"short": 0, "long": 0}
     for i in range(n):
@@ -189,6 +216,7 @@ def gen_cases(rng, tier, boost=1):
             ops = gen_history(rng, 50)
             dist["long"] += 1
         cases.append("12 " + ";".join(ops))
+    _WIDE = 0
     return cases, dist
 
 
@@ -237,7 +265,7 @@ def plan(cases):
 def nontrivial(case):
     """a history is non-trivial when it has a two-value operation, a removal or a compress"""
     for op in case.split(" ")[1].split(";"):
-        if op.split(",")[0] in ("5", "6", "7", "8", "9", "11", "12", "13", "18"):
+        if op.split(",")[0] in ("5", "6", "7", "8", "9", "11", "12", "13", "18", "21", "22"):
             return True
     return False
 
@@ -279,7 +307,7 @@ def run_check(prop, prop_v, tier, gen, what, rule, extra_assumptions=()):
     checker = "cd coq && make %s  (coqc 8.16.1, full .vo build) ; coqc -Q . Qv %s for Print Assumptions" % (prop_v + "o", prop_v)
     tb = vlib.TRUSTED_BASE_COMMON + [
         "tools/gentables_value.cpp (enum values, JSON keywords)",
-        "modelled: Include/Value.hpp (Value<char>) as patched by findings/D12,D17,D29,D40,D42,D43; objects at the slot-list level that C13 proves for HArray; string->number and real->text only on the exact-quarter / canonical-numeral class (C09/C10 own the rest); JSON escaping compared as a text skeleton (C08 owns the escaper)",
+        "modelled: Include/Value.hpp (Value<char>) as patched by findings/D12,D17,D29,D40,D42,D43,D44; objects at the slot-list level that C13 proves for HArray; string->number and real->text only on the exact-quarter / canonical-numeral class (C09/C10 own the rest); JSON escaping compared as a text skeleton (C08 owns the escaper)",
     ]
 
     exe, msg = vlib.build_cpp("drv_value", "drv_value.cpp")
@@ -305,11 +333,41 @@ def run_check(prop, prop_v, tier, gen, what, rule, extra_assumptions=()):
         r.crashes += r_nh.crashes
         r.n += r_nh.n
 
+    # the other character widths: a share of the same histories plus histories whose keys and
+    # strings use code units beyond 255 (lone surrogates, U+10FFFF, 0xFFFFFFFF)
+    exe_of = {}
+    width_of = {}
+    wide_n = {}
+    for w in (16, 32):
+        exe_w, msg_w = vlib.build_cpp("drv_value_c%d" % w, "drv_value.cpp", defines=["VERIF_CHAR=" + WIDTH_CHAR[w]])
+        if exe_w is None:
+            rep.violation({"broken": "cpp/drv_value.cpp does not build for " + WIDTH_CHAR[w], "log": msg_w}, no_input=True)
+            continue
+        wcases, wdist = gen(rng, tier, boost, wide=w, frac=0.12)
+        share = cases[:: 8]
+        cases_w = share + plan(wcases)
+        wide_n[w] = len(cases_w)
+        r_w = vlib.differential(COMP, exe_w, cases_w, eq=wild_eq)
+        for x in r_w.oracle_fail + r_w.mismatch:
+            exe_of.setdefault(x[0], exe_w)
+            width_of.setdefault(x[0], w)
+        have = set(c for (c, i, m, t) in r.oracle_fail)
+        r.oracle_fail += [x for x in r_w.oracle_fail if x[0] not in have]
+        have = set(c for (c, i, m) in r.mismatch)
+        r.mismatch += [x for x in r_w.mismatch if x[0] not in have]
+        r.crashes += r_w.crashes
+        r.bad += r_w.bad
+        r.n += r_w.n
+        for k2, v2 in wdist.items():
+            dist["c%d_%s" % (w, k2)] = v2
+
     found_input = False
     seen = set()
+    exe_char = exe
     for (c, i, m, tag) in r.oracle_fail[:50]:
         if len(seen) >= 3:
             break
+        exe = exe_of.get(c, exe_char)
         small = minimise(exe, c, True)
         if small in seen:
             continue
@@ -325,6 +383,7 @@ def run_check(prop, prop_v, tier, gen, what, rule, extra_assumptions=()):
         rep.violation({"component": "value", "case": small, "format": "<mode> <history>  (ocaml/value.ml)",
                        "first_difference": explain(small, ii, mm), "observed_impl": ii[:3000], "model": mm[:3000],
                        "oracle": "fails: " + what, "model_agrees_with_impl": tg == "same",
+                       "width": WIDTH_CHAR[width_of.get(c, 0)],
                        "sanitizer": san,
                        "broken": None if proof_ok else prop_v + "o"})
     if not found_input and (r.mismatch or not proof_ok or r.bad):
@@ -338,11 +397,12 @@ def run_check(prop, prop_v, tier, gen, what, rule, extra_assumptions=()):
         ex = None
         if r.mismatch:
             c0, i0, m0 = r.mismatch[0]
+            exe = exe_of.get(c0, exe_char)
             small = minimise(exe, c0, False)
             rr = vlib.differential(COMP, exe, [small], eq=wild_eq)
             if rr.mismatch:
                 c0, i0, m0 = rr.mismatch[0]
-            ex = {"case": c0, "first_difference": explain(c0, i0, m0)}
+            ex = {"case": c0, "width": WIDTH_CHAR[width_of.get(r.mismatch[0][0], 0)], "first_difference": explain(c0, i0, m0)}
         elif r.bad:
             ex = {"case": r.bad[0][0], "impl": r.bad[0][1][:500], "model": r.bad[0][2][:500]}
         rep.violation({"broken": whatb, "first_mismatch": ex, "coq_log": st["log"][-3000:] if not proof_ok else "",
@@ -361,15 +421,17 @@ def run_check(prop, prop_v, tier, gen, what, rule, extra_assumptions=()):
         "rule": rule,
         "samples": [cases[0][:400], cases[len(cases) // 2][:400], cases[-1][:400]],
         "input_distribution": dist,
-        "traces_validated_against_impl": len(cases),
+        "traces_validated_against_impl": r.n,
+        "cases_char16_t": wide_n.get(16, 0),
+        "cases_char32_t": wide_n.get(32, 0),
         "oracle_failures": len(r.oracle_fail),
         "model_impl_mismatches": len(r.mismatch),
         "crashes": len(r.crashes),
     }
     rep.assumptions = [
         "the theorems are about coq/ValueModel.v; the C++ is tied by gen/Tables_value.v and by the differential run reported here (finite)",
-        "Value<char> only; LP64 little-endian; the tree is /repo with findings D12, D17, D29, D40, D42, D43 applied",
-        "histories never alias a value with its own member except in the assignment operators (copy/move from a member, copy from an ancestor); operator=(ValueType) and the comparison operators are not exercised (== across kinds is C15's D4)",
+        "Value<char> on every history, Value<char16_t> and Value<char32_t> on a share plus histories with wide code units; LP64 little-endian; the tree is /repo with findings D12, D17, D29, D40, D42, D43 applied",
+        "histories never alias a value with its own member except in the assignment operators (copy/move from a member, copy from an ancestor); ValueType::ValuePtr is never assigned as a kind and the comparison operators are not exercised (== across kinds is C15's D4)",
     ] + list(extra_assumptions)
     return rep.finish()
 
@@ -378,7 +440,7 @@ def check(tier):
     return run_check(
         PROP, PROP_V, tier, gen_cases,
         "the trace of public reads differs from the abstract JSON document specification (run_spec)",
-        "seeded random histories of 1..50 operations (20 operation families, every overload variant) over 3 variables and their members up to depth 3, keys incl. empty / NUL / quote, payloads of every kind incl. 64-bit extremes, exact-quarter reals and numeric / keyword strings; after every step all three variables are dumped through the public getters and Stringify; non-trivial = has a two-value operation, removal or compress")
+        "seeded random histories of 1..50 operations (23 operation families, every overload variant) over 3 variables and their members up to depth 3, keys incl. empty / NUL / quote, payloads of every kind incl. 64-bit extremes, exact-quarter reals and numeric / keyword strings; after every step all three variables are dumped through the public getters and Stringify; non-trivial = has a two-value operation, removal or compress")
 
 
 def replay(path):
@@ -387,10 +449,14 @@ def replay(path):
     if not case:
         print("replay names a broken obligation, not an input:", d.get("broken"), d.get("first_mismatch"))
         return 1
-    exe, msg = vlib.build_cpp("drv_value", "drv_value.cpp")
+    width = d.get("width", "char")
+    if width == "char":
+        exe, msg = vlib.build_cpp("drv_value", "drv_value.cpp")
+    else:
+        exe, msg = vlib.build_cpp("drv_value_c%d" % (16 if width == "char16_t" else 32), "drv_value.cpp", defines=["VERIF_CHAR=" + width])
     case = plan([case])[0]
     r = vlib.differential(COMP, exe, [case], eq=wild_eq)
-    print("case:", case)
+    print("case:", case, "width:", width)
     for (c, i, m, tag) in r.oracle_fail:
         print("oracle: FAIL", json.dumps(explain(c, i, m), indent=1))
         return 1
